@@ -27,6 +27,11 @@ VALUE_FNS = {'clone', 'copied', 'cloned', 'into', 'from', 'try_into', 'try_from'
 CMP_FNS = {'eq': 'Eq', 'ne': 'Ne', 'lt': 'Lt', 'le': 'Le', 'gt': 'Gt', 'ge': 'Ge'}
 ARITH_FNS = {'add': 'Add', 'sub': 'Sub'}
 NEG = {'Eq': 'Ne', 'Ne': 'Eq', 'Lt': 'Ge', 'Le': 'Gt', 'Gt': 'Le', 'Ge': 'Lt'}
+NOINLINE = {'check_simulation_consistency', 'confirmed_frame', 'last_recv_frame', 'frames_behind_host', 'inputs_at_frame',
+            'next_complete_outgoing_input_frame', 'max_frame_advantage', 'average_frame_advantage', 'prev_pos', 'validate_player_handle',
+            'to_player_inputs', 'decode', 'rle_decode', 'delta_decode', 'delta_encode', 'encode', 'set_frame_delay', 'add_local_input',
+            'add_input', 'advance_queue_head', 'saved_state_by_frame', 'latest_saved_state_in_range', 'local_player_handles', 'is_handling_message',
+            'peer_connect_status', 'millis_since_epoch', 'checksums_consistent'}
 LOG_MACROS = {'trace', 'debug', 'info', 'warn', 'error', 'event', 'enabled', 'level_enabled', 'log'}
 BUILTIN_VARIANTS = {'Option': ['None', 'Some'], 'Result': ['Ok', 'Err'], 'ControlFlow': ['Continue', 'Break'],
                     'Ordering': None}
@@ -601,9 +606,10 @@ class Ctx:
                     return self.expr_operand(args[0])
         elif args and seg in VALUE_FNS:
             return self.expr_operand(args[0])
-        # inline trivial local getters
+        # inline trivial local getters (never the functions whose calls the rules refer to by name: their keys must not
+        # depend on how the callee happens to be written)
         tg = self.world.cg.targets(c)
-        if len(tg) == 1 and self.depth < 3:
+        if len(tg) == 1 and self.depth < 3 and seg not in NOINLINE:
             g = tg[0]
             if self.world.is_straight_line(g):
                 env = {}
@@ -628,7 +634,7 @@ class Ctx:
         if len(tg) != 1 or self.depth >= 2:
             return None
         g = tg[0]
-        if self.world.is_straight_line(g) or not self.world.is_small_pure(g):
+        if self.world.is_straight_line(g) or not self.world.is_small_pure(g) or last_seg(path) in NOINLINE:
             return None
         env = {}
         for i, a in enumerate(args):
